@@ -350,6 +350,9 @@ func (r *Receiver) handleAnnounce(ctx context.Context, amsg Announce, resend boo
 	case <-r.done:
 		return ErrClosed
 	case <-ctx.Done():
+		// The announcement was not handed over. Forget its CID so that a
+		// later announcement of it is not dropped as a duplicate.
+		r.UncacheCid(amsg.Cid)
 		return ctx.Err()
 	}
 
